@@ -468,7 +468,7 @@ def check_antitarget(ctx, tga, trows, arows, avg, mn, sub, lenient=None, origin=
     cfeat = "one-contig" if len(contigs) == 1 else "multi-contig"
     s = {"targets": list(trows) + list(lenient or []), "access": arows, "avg": avg, "min": mn, **(sub or {})}
     if isinstance(got, Exc):
-        ctx.violation("do_antitarget returns the bins", f"antitarget/raises/{got.key}/{tfeat}/{afeat}/{cfeat}", observed=got, sub=s)
+        ctx.violation("do_antitarget returns the bins", f"antitarget/raises/{got.key}/{tfeat}/{'access-none' if arows is None else 'access-given'}/{cfeat}", observed=got, sub=s)
         return None
     ctx.trace()
     bins = read_bins(got)
@@ -479,8 +479,14 @@ def check_antitarget(ctx, tga, trows, arows, avg, mn, sub, lenient=None, origin=
     else:
         lo = hi = mn
         mfeat = "min-given"
+    agiven = "access-none" if arows is None else "access-given"
     for clause, key, exp, obs in B.antitarget_problems(bins, trows, arows, avg, lo, hi, CANONICAL, lenient):
-        ctx.violation("antitarget: " + clause, f"antitarget/{key}/{tfeat}/{afeat}/{cfeat}/{mfeat}", expected=exp, observed={"problem": obs, "bins": bins[:40]}, sub=s)
+        fkey = f"antitarget/{key}/{tfeat}/{agiven}"
+        if key in ("below-min", "stretch-uncovered"):
+            fkey += "/" + mfeat
+        if key == "contig":
+            fkey += "/" + cfeat
+        ctx.violation("antitarget: " + clause, fkey, expected=exp, observed={"problem": obs, "bins": bins[:40]}, sub=s)
     # strata and non-triviality (from the inputs and the model only)
     sp = B.space(list(trows) + list(lenient or []), arows, CANONICAL)
     ctx.stratum(afeat)
